@@ -19,7 +19,7 @@ Definition e_json_unsupported := Eval vm_compute in b "json: unsupported value".
 Definition json_float (x : fl) : outcome bstr :=
   match x with
   | FNaN | FInf _ => Err e_json_unsupported
-  | _ => match fl_to_string x with Some s => Ok s | None => OutOfModel end
+  | _ => match fl_to_string_dom x with Some s => Ok s | None => OutOfModel end
   end.
 
 (* sort.Strings order of the keys (mapEncoder sorts the reflected keys); stable insertion *)
